@@ -3,6 +3,7 @@ import Netconan.Pinned.Patterns
 import Netconan.Generated.Patterns
 import Netconan.Proofs.RegexAlpha
 import Netconan.Proofs.Ipv4Pinned
+import Netconan.Proofs.Ipv4Parse
 /-!
 # C06 – Address substitution in text  (tier T0 + alphabet analysis)
 
@@ -179,6 +180,20 @@ theorem ipv4_replaced_span_is_the_whole_token (t w rest1 rest2 : List Char)
   have := congrArg (List.take t.length) he
   rw [List.take_left' rfl, hlen, List.take_left' rfl] at this
   exact this
+
+open NoSurvival in
+/-- **What a replaced IPv4 token becomes**: every dotted quad of the core language parses (`IPv4Address` after the
+leading zeros are dropped) to the number `n` its parts spell; the token is written back unchanged exactly when
+`n` is netmask-shaped or a member of a preserved network, and otherwise replaced by the canonical dotted quad of
+the image of `n` under the address map (`Ffull`, `Gfull` when undoing) – it is never "left alone as unparsable". -/
+theorem replaced_ipv4_token_is_canonical_image (c : IpCfg) (hf : c.fam6 = false) (undo : Bool) (w : List Char) (h : Lang core4 w) :
+    ∃ n, parseV4 w = .ok n ∧ n < 2 ^ 32 ∧
+      anonMatch c undo w =
+        if Mask.shouldAnonymize c.nets n then
+          showV4 (IpCore.ofBits (if undo then Spec.Gfull c.h c.pins c.L c.B (IpCore.fmt c.L n)
+                                  else Spec.Ffull c.h c.pins c.L c.B (IpCore.fmt c.L n)))
+        else w :=
+  anonMatch_of_lang c hf undo w h
 
 open NoSurvival in
 /-- **The IPv6 stage is the pattern scanner**: the same statement with the declarative reading
